@@ -46,7 +46,8 @@ LEVEL_TEXT = ('Seeded random and systematic legal histories of table creation, m
               'mutations, parses and pickles are executed in separate interpreters; after every history the values served by '
               'the public table and by each private table are compared entry by entry with a canonical digest, the heaps of '
               'the tables are walked for shared mutable objects, and every violating history is re-executed in a fresh '
-              'interpreter.  Held means: no difference on the histories explored (counts in the evidence), not all histories.')
+              'interpreter.  Held means: no difference on the histories explored (counts in the evidence), not all histories.'
+              " Added in rounds 4-7: atoms kept after their table's name went out of scope (pickle), premature loader calls (init0 events) followed by the documented order or by public use.")
 LEVEL_NOTE = ('Trusted: fork() fidelity (checked: forked and fresh canonical digests must agree; every violating history is '
               'replayed in a fresh interpreter), the legal-use model of DESIGN section 5 C10, pickle for result transport. '
               'Two private tables at most; histories of bounded length.')
